@@ -108,6 +108,21 @@ func runC08(c *fw.Ctx) {
 	}
 	n := 60 + r.Intn(240)
 	points := gen.Points(r, n, span, res)
+	if c.Case%2 == 1 {
+		// odd cases: some points carry no dimension at all, or only the sometimes-missing ones (rows with an
+		// empty or tiny key); the reference evaluator does not cover missing dimensions, the differentials do
+		for i := range points {
+			switch r.Intn(12) {
+			case 0:
+				points[i].Dims = map[string]interface{}{}
+			case 1:
+				for _, k := range []string{"s", "n", "b"} {
+					delete(points[i].Dims, k)
+				}
+			}
+		}
+		c.Obs("datasets_with_dimensionless_points", 1)
+	}
 	db, err := dbh.Open(c.Dir, defs, dbh.Opts{VirtualTime: true})
 	if err != nil {
 		c.Violate("open", "cannot open database: %v (defs %v)", err, defs)
@@ -299,8 +314,32 @@ func runC08(c *fw.Ctx) {
 		if r.Intn(3) == 0 {
 			tail += fmt.Sprintf(", period(%v)", res*time.Duration(1+r.Intn(3)))
 		}
-		qh := fmt.Sprintf("SELECT %s FROM t%s HAVING %s", strings.Join(sel, ", "), tail, havingSQL)
-		qf := fmt.Sprintf("SELECT %s FROM t%s", strings.Join(selAll, ", "), tail)
+		// every fourth check: the field HAVING refers to is an output column whose alias shadows a table field
+		// of the same name but is a different expression; HAVING is about output values
+		selExpr := func(name string) string { return name }
+		inSel := false
+		for _, n := range sel {
+			inSel = inSel || n == atoms[0].l
+		}
+		if k%4 == 1 && atoms[0].l != "_points" && inSel {
+			shadow := atoms[0].l
+			selExpr = func(name string) string {
+				if name == shadow {
+					return fmt.Sprintf("%s + _points AS %s", shadow, shadow)
+				}
+				return name
+			}
+			c.Obs("having_on_alias_shadowing_table_field", 1)
+		}
+		render := func(list []string) string {
+			var out []string
+			for _, n := range list {
+				out = append(out, selExpr(n))
+			}
+			return strings.Join(out, ", ")
+		}
+		qh := fmt.Sprintf("SELECT %s FROM t%s HAVING %s", render(sel), tail, havingSQL)
+		qf := fmt.Sprintf("SELECT %s FROM t%s", render(selAll), tail)
 		rh := db.Query(qh, true)
 		rf := db.Query(qf, true)
 		c.Obs("having_checks", 1)
@@ -393,8 +432,8 @@ func runC08(c *fw.Ctx) {
 
 	// ---------------- I: IN (SELECT dim ...)
 	prevSub, prevDim, prevLits := "", "", ""
-	for k := 0; k < c.Pick(6, 12) && !c.Violated(); k++ {
-		// only dims that every point has: a subquery row lacking the dim yields a NULL candidate, and
+	for k := 0; k < c.Pick(6, 12) && !c.Violated() && c.Case%2 == 0; k++ {
+		// only dims that every point has (even cases; odd cases contain points without s, n, b): a subquery row lacking the dim yields a NULL candidate, and
 		// whether NULL IN (..., NULL) matches is not something the statement fixes
 		dim := []string{"s", "n", "b"}[r.Intn(3)]
 		sub := fmt.Sprintf("SELECT %s FROM t", dim)
